@@ -6,6 +6,7 @@ package main
 
 import (
 	"bytes"
+	"compress/gzip"
 	"fmt"
 	"os"
 	"regexp"
@@ -26,8 +27,9 @@ import (
 
 type pipeInput struct {
 	Name string
-	Data []byte
+	Data []byte // the plain content (what the lines are); a gzip input's file holds the compressed form
 	Plan *simrt.ReadPlan
+	Gz   bool
 }
 
 type pipeScenario struct {
@@ -43,6 +45,8 @@ type pipeScenario struct {
 	Buffer      int
 	ConsLatPm   int // per-mille chance the consumer sleeps (fake time) before taking the next batch
 	ConsLatMs   int
+	Gunzip      bool // -z: gzip inputs are decompressed, plain inputs are read from their first byte
+	IgnoreCase  bool // -I: `(?i)` for regex; dissect literals compared case-insensitively
 	ScanBuf     int // override of batchers.ReadAheadBufferSize for this run (0: the tree's constant)
 	PoolDiv     int // divisor applied to the matchers' index-pool size (0/1: the tree's size, 1024 matches per block)
 }
@@ -57,10 +61,13 @@ func (sc *pipeScenario) describe() map[string]any {
 		if in.Plan != nil && in.Plan.ErrAt >= 0 {
 			f = fmt.Sprintf(" read-error@%d", in.Plan.ErrAt)
 		}
+		if in.Gz {
+			f += " gzip"
+		}
 		ins = append(ins, fmt.Sprintf("%s: %d bytes, %d lines%s", in.Name, len(in.Data), n, f))
 	}
 	return map[string]any{"stdin": sc.Stdin, "inputs": ins, "lines": total, "matcher": []string{"none", "regex", "dissect"}[sc.MatcherKind], "pattern": sc.Pattern,
-		"extract": sc.Extract, "ignore": sc.Ignores, "batch": sc.Batch, "workers": sc.Workers, "readers": sc.Readers, "buffer": sc.Buffer, "scanner_buffer": sc.ScanBuf, "index_pool_divisor": sc.PoolDiv}
+		"extract": sc.Extract, "ignore": sc.Ignores, "batch": sc.Batch, "workers": sc.Workers, "readers": sc.Readers, "buffer": sc.Buffer, "scanner_buffer": sc.ScanBuf, "index_pool_divisor": sc.PoolDiv, "gunzip": sc.Gunzip, "ignore_case": sc.IgnoreCase}
 }
 
 var (
@@ -104,7 +111,12 @@ var (
 
 func genLine(t *simrt.Tape) string {
 	pick := func(xs []string) string { return xs[t.W(len(xs))] }
-	switch t.W(14) {
+	switch t.W(16) {
+	case 14:
+		// characters whose lower-case form has another byte length, and bytes that are not UTF-8
+		return []string{"\u0130stanbul ", "\u212a ", "\u023a\u023e ", "\xe9\xc9 ", "\xff\xfe"}[t.W(5)] + pick(genVerbs) + " " + pick(genCodes) + " " + pick(genPaths)
+	case 15:
+		return strings.ToLower(pick(genVerbs)) + " " + pick(genCodes) + " \u212a" + pick(genPaths)
 	case 0, 1, 2, 3, 4, 5:
 		return pick(genVerbs) + " " + pick(genCodes) + " " + pick(genPaths)
 	case 6:
@@ -176,6 +188,22 @@ func genPipeScenario(rc *RunCtx, allowStdin bool, maxLinesPerInput int) *pipeSce
 		ex = append(ex, genExtractNamedDs[sc.Pattern]...)
 	}
 	sc.Extract = ex[t.W(len(ex))]
+	switch sc.MatcherKind {
+	case 1:
+		sc.IgnoreCase = t.WBool(1, 4)
+	case 2:
+		// dissect -I with literals that contain no letters: the result must equal the case-sensitive one on any bytes
+		sc.IgnoreCase = sc.Pattern != `GET %{code}` && t.WBool(1, 3)
+	}
+	if !sc.Stdin && t.WBool(1, 4) {
+		sc.Gunzip = true
+		for i := range sc.Inputs {
+			if t.WBool(1, 2) {
+				sc.Inputs[i].Gz = true
+				sc.Inputs[i].Name += ".gz"
+			}
+		}
+	}
 	for n := t.W(3); n > 0; n-- {
 		sc.Ignores = append(sc.Ignores, genIgnore[t.W(len(genIgnore))])
 	}
@@ -213,8 +241,11 @@ func genPipeScenario(rc *RunCtx, allowStdin bool, maxLinesPerInput int) *pipeSce
 	if rc.Faults && t.FBool(3, 4) {
 		i := t.F(len(sc.Inputs))
 		in := &sc.Inputs[i]
-		in.Plan.ErrAt = int64(t.F(len(in.Data) + 1))
-		in.Plan.ErrWithData = t.FBool(1, 2)
+		at := int64(t.F(len(in.Data) + 1))
+		with := t.FBool(1, 2)
+		if !in.Gz { // the plan counts file bytes; a cut inside a gzip stream is C06's subject
+			in.Plan.ErrAt, in.Plan.ErrWithData = at, with
+		}
 	}
 	if rc.Faults && !sc.Stdin && t.FBool(1, 4) {
 		// open failures, possibly as many as (or more than) there are reader slots
@@ -242,13 +273,13 @@ type pipeOutcome struct {
 func (sc *pipeScenario) matcherFactory() (matchers.Factory, error) {
 	switch sc.MatcherKind {
 	case 1:
-		r, err := fastregex.CompileEx(sc.Pattern, false)
+		r, err := fastregex.CompileEx(sc.rePattern(), false)
 		if err != nil {
 			return nil, err
 		}
 		return matchers.ToFactory(r), nil
 	case 2:
-		d, err := dissect.CompileEx(sc.Pattern, false)
+		d, err := dissect.CompileEx(sc.Pattern, sc.IgnoreCase)
 		if err != nil {
 			return nil, err
 		}
@@ -257,13 +288,29 @@ func (sc *pipeScenario) matcherFactory() (matchers.Factory, error) {
 	return &matchers.AlwaysMatch{}, nil
 }
 
+// rePattern is the regular expression as the CLI hands it to the matcher.
+func (sc *pipeScenario) rePattern() string {
+	if sc.IgnoreCase {
+		return "(?i)" + sc.Pattern
+	}
+	return sc.Pattern
+}
+
 // writeInputs puts the file inputs into the run directory.
 func (sc *pipeScenario) writeInputs() {
 	if sc.Stdin {
 		return
 	}
 	for _, in := range sc.Inputs {
-		if err := os.WriteFile(in.Name, in.Data, 0o644); err != nil {
+		data := in.Data
+		if in.Gz {
+			var zb bytes.Buffer
+			zw := gzip.NewWriter(&zb)
+			zw.Write(in.Data)
+			zw.Close()
+			data = zb.Bytes()
+		}
+		if err := os.WriteFile(in.Name, data, 0o644); err != nil {
 			panic(err)
 		}
 	}
@@ -280,7 +327,7 @@ func (sc *pipeScenario) buildBatcher(s *simrt.Sim) *batchers.Batcher {
 		names <- in.Name
 	}
 	close(names)
-	return batchers.OpenFilesToChan(names, false, sc.Readers, sc.Batch, sc.Buffer)
+	return batchers.OpenFilesToChan(names, sc.Gunzip, sc.Readers, sc.Batch, sc.Buffer)
 }
 
 // knobs returns the constant overrides of the scenario.
@@ -525,7 +572,7 @@ func buildRef(sc *pipeScenario) *pipeRef {
 	names := map[string]int{}
 	switch sc.MatcherKind {
 	case 1:
-		re = regexp.MustCompile(sc.Pattern)
+		re = regexp.MustCompile(sc.rePattern())
 		for i, n := range re.SubexpNames() {
 			if n != "" {
 				names[n] = i
@@ -708,7 +755,7 @@ func pipeNontrivial(out *pipeOutcome, ref *pipeRef) bool {
 
 func init() {
 	worlds["C01"] = func(rc *RunCtx) {
-		if rc.Tape.WBool(1, 5) {
+		if rc.Tape.WBool(1, 5) && rc.Mode != simrt.ModeFree {
 			cliFilterWorld(rc, "C01") // CLI-level variant: stderr summary, exit status, printed keys
 			return
 		}
@@ -728,7 +775,7 @@ func init() {
 		rc.Logf("read=%d matched=%d ignored=%d emitted=%d", out.ReadLines, out.MatchedLines, out.IgnoredLines, len(out.Matches))
 	}
 	worlds["C02"] = func(rc *RunCtx) {
-		if rc.Tape.WBool(1, 5) {
+		if rc.Tape.WBool(1, 5) && rc.Mode != simrt.ModeFree {
 			cliFilterWorld(rc, "C02") // CLI-level variant: default filter output with colour codes stripped, -l prefixes
 			return
 		}
